@@ -268,13 +268,12 @@ theorem verifyUpgrade_cases (cs : ClientState) (s : Store) (u : UpgradeReq) (now
       (s.getCons cs.latest).isSome = true ∧ u.proofClientOK = true ∧ u.proofConsOK = true ∧
       (upgradedClient cs u).validate = none) := by
   have shape : ∀ x : Option String, ((match x with
-      | some "panic" => (s, "panic")
       | some e => (s, "err:" ++ e)
       | none => (upgradedStore cs s u now self, "ok")) : Store × String).1 = s ∨ x = none := by
     intro x
     cases x with
     | none => right; rfl
-    | some e => left; split <;> simp_all
+    | some e => left; rfl
   by_cases h1 : cs.upgradePath.isEmpty = true
   · left; unfold verifyUpgradeAndUpdateState; simp [h1]
   · by_cases h2 : u.proofClientParse = true
@@ -286,7 +285,6 @@ theorem verifyUpgrade_cases (cs : ClientState) (s : Store) (u : UpgradeReq) (now
           · by_cases h6 : u.proofConsOK = true
             · have key : verifyUpgradeAndUpdateState cs s u now self =
                   (match (upgradedClient cs u).validate with
-                    | some "panic" => (s, "panic")
                     | some e => (s, "err:" ++ e)
                     | none => (upgradedStore cs s u now self, "ok")) := by
                 unfold verifyUpgradeAndUpdateState
@@ -444,7 +442,7 @@ theorem createClient_cases (w : World) (cs : ClientState) (c : ConsState) :
       (createClient w cs c).1 = ({ w with nextSeq := w.nextSeq + 1 }).put w.nextSeq (initClient cs c w.now w.self)) := by
   unfold createClient
   cases hv : cs.validate with
-  | some e => left; simp only; split <;> simp_all
+  | some e => left; rfl
   | none =>
     cases hb : c.validateBasic with
     | some e => left; rfl
